@@ -3,7 +3,7 @@ import re
 
 from sa.engine.api import *
 from sa.engine import callgraph
-from sa.rules._helpers_B import any_call_named, assign_to_field, assign_to_local, mcall_named, must_before
+from sa.rules._helpers_B import alias_naming, any_call_named, assign_to_field, assign_to_local, mcall_named, must_before, zero_test_marks
 
 UNITS = ["validation.cpp", "node/blockstorage.cpp"]
 EXPLANATION = ("TWIN: CBlockIndexWorkComparator orders by chain work, then reverse sequence id, then reverse pointer (truth-table equivalence). "
@@ -99,8 +99,8 @@ def find_most_work(ctx, P):
     on_it = lambda a: contains(["local", it], a)
     marks = [("FLAG:" + d["n"], assign_to_local(d["n"], ["bool", True])) for d in flags]
     marks.append(("ERASED", lambda e: is_expr(e) and e[0] == "mcall" and e[1] == "std::set::erase" and match([".", ["this"], CS + "setBlockIndexCandidates"], e[2])))
-    mf = MustFlow(body, P, marks=marks, branch_marks=[("NOTFAILED", lambda a: _status_atom("BLOCK_FAILED_VALID")(a) and on_it(a), False),
-                                                      ("HASDATA", lambda a: _status_atom("BLOCK_HAVE_DATA")(a) and on_it(a), True)])
+    mf = MustFlow(body, P, marks=marks, branch_marks=zero_test_marks("NOTFAILED", lambda a: _status_atom("BLOCK_FAILED_VALID")(a) and on_it(a), False) +
+                  zero_test_marks("HASDATA", lambda a: _status_atom("BLOCK_HAVE_DATA")(a) and on_it(a), True))
     out = mf.run()
     where = "%s:%s" % (f.file, W.get("l"))
     for kind in ("normal", "continue"):
@@ -156,11 +156,18 @@ def accept_header(ctx, P):
     self_find = r"%s\.find\(block\.GetHash\(\)\)" % idx
     prev_find = r"%s\.find\(block\.hashPrevBlock\)" % idx
     end = r"%s\.end\(\)" % idx
+    # the locals holding the two block-index entries, found by what they are computed from (names are free)
+    entry = lambda find: re.compile(r"&\(?\*?%s\)?\.second" % find)
+    selfs = sorted([d for n, ds in decls.items() for d in ds if is_expr(d.get("i")) and entry(self_find).fullmatch(F.key(F.expand(d["i"], sub)))], key=lambda d: d["l"])
+    prevs = sorted({n for n in decls for l, v in local_values(f, n) if is_expr(v) and not match(["null"], v) and entry(prev_find).fullmatch(F.key(F.expand(v, sub)))})
+    if not selfs or len(prevs) != 1:
+        raise AnalysisBroken("AcceptBlockHeader: block index entry locals (own hash / hashPrevBlock) not recognised")
+    self_n, prev_n = selfs[0]["n"], prevs[0]
     atoms = {"GENESIS": re.compile(r"(block\.GetHash\(\) == .*hashGenesisBlock|.*hashGenesisBlock == block\.GetHash\(\))"),
              "KNOWN": (re.compile(r"(%s == %s|%s == %s)" % (self_find, end, end, self_find)), False),
-             "SELF_FAILED": "BLOCK_FAILED_VALID & pindex.nStatus",
+             "SELF_FAILED": "BLOCK_FAILED_VALID & %s.nStatus" % self_n,
              "PREV_MISSING": re.compile(r"(%s == %s|%s == %s)" % (prev_find, end, end, prev_find)),
-             "PREV_FAILED": "BLOCK_FAILED_VALID & pindexPrev.nStatus"}
+             "PREV_FAILED": "BLOCK_FAILED_VALID & %s.nStatus" % prev_n}
     want = {"duplicate-invalid": ("BlockValidationResult::BLOCK_CACHED_INVALID", "!GENESIS && KNOWN && SELF_FAILED"),
             "bad-prevblk": ("BlockValidationResult::BLOCK_INVALID_PREV", "!GENESIS && !KNOWN && !PREV_MISSING && PREV_FAILED")}
     seen = set()
@@ -186,11 +193,11 @@ def accept_header(ctx, P):
     check_guard(ctx, f, P, mcall_named("node::BlockManager::AddToBlockIndex"), "GENESIS || (!KNOWN && !PREV_MISSING && !PREV_FAILED)", atoms,
                 "AcceptBlockHeader/AddToBlockIndex", "a header enters the block index only if it is new and its parent is known and not marked failed", subst=sub)
     # the entries examined: pindexPrev is the entry of block.hashPrevBlock, the known header's pindex the entry of the header's own hash
-    vals = [(l, v) for l, v in local_values(f, "pindexPrev") if not match(["null"], v)]
+    vals = [(l, v) for l, v in local_values(f, prev_n) if not match(["null"], v)]
     ok = bool(vals) and all(re.fullmatch(r"&\(?\*?%s\)?\.second" % prev_find, F.key(F.expand(v, sub))) for _, v in vals)
     ctx.ob("AcceptBlockHeader/parent-provenance", "PROVENANCE", "the parent whose failure flag is tested is the block index entry of block.hashPrevBlock", ok, f.where,
            {"values": [(l, F.key(F.expand(v, sub))) for l, v in vals]})
-    first = sorted(decls.get("pindex", []), key=lambda d: d["l"])[:1]
+    first = sorted(decls.get(self_n, []), key=lambda d: d["l"])[:1]
     ok = bool(first) and re.fullmatch(r"&\(?\*?%s\)?\.second" % self_find, F.key(F.expand(first[0].get("i"), sub))) is not None
     ctx.ob("AcceptBlockHeader/self-provenance", "PROVENANCE", "the known header whose failure flag is tested is the block index entry of the header's own hash", ok, f.where)
 
@@ -274,10 +281,10 @@ def marking(ctx, P):
     ok = len(loops) == 1 and not has_break(loops[0]["b"]) and not [st for st in stmts(loops[0]["b"]) if st.get("k") in ("ret", "throw", "continue")] and \
         any(x is loops[0] for x in sbf.body.get("s", []))
     ctx.ob("SetBlockFailureFlags/complete-scan", "LADDER", "SetBlockFailureFlags visits every entry of the block index (no early exit)", ok, sbf.where)
-    sub = naming(sbf, P)
+    sub = alias_naming(sbf, P)
     ws = sites(sbf, _fail_write, P)
     ctx.floor("SetBlockFailureFlags writes", len(ws), 1)
-    el = r"bind1\(each\(m_blockman\.m_block_index\)\)"
+    el = r"(?:bind1\(each\(m_blockman\.m_block_index\)\)|each\(m_blockman\.m_block_index\)\.second)"
     atoms = {"SELF": re.compile(r"(&%s == invalid_block|invalid_block == &%s)" % (el, el)),
              "DESC": re.compile(r"(%s\.GetAncestor\(invalid_block\.nHeight\) == invalid_block|invalid_block == %s\.GetAncestor\(invalid_block\.nHeight\))" % (el, el))}
     for s in ws:
@@ -288,7 +295,7 @@ def marking(ctx, P):
                "height is the invalid block gets BLOCK_FAILED_VALID", c is None and tgt_ok, s.where, None if c is None else {"guard": F.fshow(s.formula(sub)), "unbound": un})
     # ResetBlockFailureFlags
     rbf = ctx.used(P.fn(CS + "ResetBlockFailureFlags"))
-    sub = naming(rbf, P)
+    sub = alias_naming(rbf, P)
     fv = dict((v[0], v[1]) for v in P.enum("BlockStatus")["values"]).get("BLOCK_FAILED_VALID")
     if not isinstance(fv, int) or fv == 0:
         raise AnalysisBroken("BlockStatus::BLOCK_FAILED_VALID value not found")
@@ -493,7 +500,10 @@ def invalidate(ctx, P):
             ctx.ob("InvalidateBlock/descendant-marked@L%s" % s.line, "MPT", "an out-of-chain block is marked failed by InvalidateBlock only if it descends from the "
                    "block just disconnected", ok, s.where, None if ok else {"guard": F.fshow(fm), "unbound": un})
         elif s.line > hi:
-            fb, mp, un = F.bind_atoms(s.formula(sub), {"WASIN": "pindex_was_in_chain"})
+            # the "was in the active chain" flag: a bool initialised false before the disconnect loop and set true only inside it
+            wasin = [d["n"] for d in stmts(f.body) if d.get("k") == "decl" and d.get("ty") == "bool" and match(["bool", False], d.get("i")) and d["l"] < lo
+                     and [1 for l, v in local_values(f, d["n"]) if match(["bool", True], v)] and all(lo <= l <= hi for l, v in local_values(f, d["n"]) if match(["bool", True], v))]
+            fb, mp, un = F.bind_atoms(s.formula(sub), {"WASIN": lambda k_: k_ in wasin})
             ok = match(["param", "pindex"], tgt) and F.counterexample(fb, F.parse("!WASIN")) is None
             ctx.ob("InvalidateBlock/never-in-chain-marked@L%s" % s.line, "MPT", "after the loop only the requested block itself is marked, and only if it never was in the "
                    "active chain", ok, s.where)
@@ -508,7 +518,8 @@ def invalidate(ctx, P):
         ok = bool(vs) and all(match(["param", "pindex"], v) or match(["local", tip], v) for _, v in vs)
         ctx.ob("InvalidateBlock/propagation-target@L%s" % s.line, "PROVENANCE", "InvalidChainFound is applied to the requested block or the last block disconnected", ok, s.where,
                {"values": [(l, show(v)) for l, v in vs]})
-    ok = all(F.counterexample(F.bind_atoms(s.formula(sub), {"INCHAIN": re.compile(r"m_chain\.Contains\(\*to_mark_failed\)")})[0], F.parse("!INCHAIN")) is None for s in sites(f, icf, P))
+    ok = all(F.counterexample(F.bind_atoms(s.formula(sub), {"INCHAIN": re.compile(r"m_chain\.Contains\(\*%s\)" % re.escape(show(call_args(s.expr)[0])))})[0], F.parse("!INCHAIN")) is None
+             for s in sites(f, icf, P))
     ctx.ob("InvalidateBlock/not-in-chain-when-propagating", "MPT", "InvalidChainFound runs only if the block to mark is no longer in the active chain", ok, f.where)
 
 
